@@ -20,7 +20,11 @@ EXPLANATION = (
     'with the default type exactly for instants strictly before the first transition, selects the '
     'predecessor of std::upper_bound by unix_time over the whole table (the latest transition at or '
     'before t), and beyond an extended table shifts back by a positive multiple of 400 years using '
-    'one shift count for both the seconds subtracted and the years added back. C01-rule: the '
+    'one shift count for both the seconds subtracted and the years added back, the count and its '
+    'two products being held in types wide enough for instants up to time_point::max(). C01-sentinel: '
+    'the two entries the loader adds to the table change nothing (the one in front carries the '
+    'before-first-transition type; the one appended carries the type of the entry that was last '
+    'when it was read, before the insertion). C01-rule: the '
     'generated DST-start transition uses the dst_start rule converted with the standard offset and '
     'the DST type, the DST-end transition the dst_end rule with the DST offset and the standard '
     'type; each transition\'s previous civil second is computed with the type in force before it. '
@@ -165,12 +169,48 @@ def run(ctx):
                   'one shift count scales both the seconds stepped back and the years added back', shift[0],
                   'the instant is stepped back by shift*kSecsPer400Years seconds but the civil year is not moved forward by the '
                   'same shift*400 years (or the recursion does not use the stepped-back instant)', construct='shift:pair')
+        # width: elapsed < 2^63, so the count reaches (2^63-1)/cycle + 1 (about 7.3e8): every product of the count is
+        # evaluated in a type that holds count_max * factor, and the count itself is stored without loss
+        from ..expr import type_range
+        K = vals['kSecsPer400Years']
+        cmax = (2 ** 63 - 1) // K + 1
+        fold = Folder(u)
+        nprod = 0
+        for x in walk(f):
+            if x.get('kind') != 'BinaryOperator' or x.get('opcode') != '*':
+                continue
+            ops = [peel(o, explicit=True) for o in kids(x)]
+            idx = [i for i, o in enumerate(ops) if o.get('kind') == 'DeclRefExpr' and (o.get('referencedDecl') or {}).get('id') == shift[0]['id']]
+            if len(idx) != 1:
+                continue
+            c = fold.fold(kids(x)[1 - idx[0]])
+            if c is None:
+                continue
+            nprod += 1
+            need = min(cmax * abs(c), 2 ** 63 - 1)
+            r = type_range(dtype(x) or qtype(x))
+            ctx.check(r is not None and r[0] <= -need and need <= r[1], 'C01-search',
+                      'shift count * %d is evaluated in a type that holds %d' % (c, need), x,
+                      'the shift count reaches %d for instants near time_point::max(); its product with %d is evaluated in %s, '
+                      'which overflows: the civil year (or the instant stepped back) is wrong for far-future instants'
+                      % (cmax, c, dtype(x) or qtype(x)), construct='shift:width:%d' % c)
+        r = type_range(dtype(shift[0]) or qtype(shift[0]))
+        casts = [y for y in walk(kids(shift[0])[-1]) if y.get('kind') in ('ImplicitCastExpr', 'CXXStaticCastExpr', 'CStyleCastExpr', 'CXXFunctionalCastExpr')
+                 and y.get('castKind') == 'IntegralCast']
+        narrow = [y for y in casts if (type_range(dtype(y) or qtype(y)) or (0, 0))[1] < cmax]
+        ctx.check(r is not None and r[1] >= cmax and not narrow, 'C01-search', 'shift count stored without loss (up to %d)' % cmax, shift[0],
+                  'the shift count reaches %d but is stored in / cast to %s' % (cmax, (dtype(narrow[0]) if narrow else dtype(shift[0]))),
+                  construct='shift:width:count')
+        ctx.check(nprod >= 2, 'C01-search', 'both products of the shift count found', shift[0], 'found %d' % nprod, construct='shift:width:n')
         fs = F.facts_at_ast(shift[0]) or frozenset()
         last = 'this.transitions_[(this.transitions_.size() - n:1)].unix_time'
         ctx.check(any(op == '<=' and a == last for (op, a, b) in fs) and any('extended_' in a + b and op == '!=' for (op, a, b) in fs),
                   'C01-search', 'shift only at/after the last transition of an extended table', shift[0],
                   'the 400-year shift is applied without t >= last transition and extended_', construct='shift:guard')
-    ctx.minimum('C01-search', 9)
+    ctx.minimum('C01-search', 13)
+
+    # ---- C01-sentinel: the entries the loader adds to the table are no-ops
+    c12.check_sentinel_types(ctx, 'C01-sentinel')
 
     # ---- C01-rule
     u, f = ctx.fn('cctz::TimeZoneInfo::ExtendTransitions')
